@@ -280,32 +280,32 @@ def segsOf (sh : Shape) (nm id : Bytes) : List Bytes :=
 /-- a segment that survives path cleaning and splitting -/
 def Clean (s : Bytes) : Prop := s ≠ [] ∧ s ≠ dot ∧ s ≠ dotdot ∧ 47 ∉ s
 
-private theorem SegOk.clean {s : Bytes} (h : SegOk s) : Clean s :=
+theorem SegOk.clean {s : Bytes} (h : SegOk s) : Clean s :=
   ⟨h.ne, h.notDot, h.notDotDot, fun hm => (unreserved_table 47 (by omega) (h.bytes 47 hm).2).2.1 rfl⟩
 
-private theorem SegOk.noPct {s : Bytes} (h : SegOk s) : 37 ∉ s :=
+theorem SegOk.noPct {s : Bytes} (h : SegOk s) : 37 ∉ s :=
   fun hm => (unreserved_table 37 (by omega) (h.bytes 37 hm).2).1 rfl
 
-private theorem lit_clean : Clean sApi ∧ Clean sV1 ∧ Clean sMailbox ∧ Clean sSource := by
+theorem lit_clean : Clean sApi ∧ Clean sV1 ∧ Clean sMailbox ∧ Clean sSource := by
   simp [Clean, sApi, sV1, sMailbox, sSource, dot, dotdot]
 
 /-- an escaped name is a clean segment -/
-private theorem esc_clean (keep : Nat → Bool) (hk : ∀ c < 256, keep c = true → c ≠ 37 ∧ c ≠ 47) (name : Bytes)
+theorem esc_clean (keep : Nat → Bool) (hk : ∀ c < 256, keep c = true → c ≠ 37 ∧ c ≠ 47) (name : Bytes)
     (hb : ∀ c ∈ name, c < 256) (hne : name ≠ []) (hd : name ≠ dot) (hdd : name ≠ dotdot) :
     Clean (escWith keep name) :=
   ⟨escWith_ne keep hk name hb [] unescape_nil hne, escWith_ne keep hk name hb dot unescape_dot hd,
    escWith_ne keep hk name hb dotdot unescape_dotdot hdd, noslash_escWith keep hk name hb⟩
 
-private theorem segs_clean (sh : Shape) (nm id : Bytes) (hn : Clean nm) (hi : Clean id) : ∀ s ∈ segsOf sh nm id, Clean s := by
+theorem segs_clean (sh : Shape) (nm id : Bytes) (hn : Clean nm) (hi : Clean id) : ∀ s ∈ segsOf sh nm id, Clean s := by
   obtain ⟨h1, h2, h3, h4⟩ := lit_clean
   cases sh <;> simp [segsOf] <;> simp_all
 
-private theorem clientUri_render (sh : Shape) (name id : Bytes) :
+theorem clientUri_render (sh : Shape) (name id : Bytes) :
     clientUri sh name id = render (segsOf sh (queryEscape name) id) := by
   cases sh <;> simp [clientUri, segsOf, render, uriPrefix]
 
 /-- JoinPath of a clean base and a clean URI is their concatenation -/
-private theorem joinPath_clean (base segs : List Bytes) (hb : ∀ s ∈ base, Clean s) (hs : ∀ s ∈ segs, Clean s) (hne : segs ≠ []) :
+theorem joinPath_clean (base segs : List Bytes) (hb : ∀ s ∈ base, Clean s) (hs : ∀ s ∈ segs, Clean s) (hne : segs ≠ []) :
     joinPath base (render segs) = render (base ++ segs) := by
   have hall : ∀ s ∈ base ++ segs, s ≠ [] ∧ s ≠ dot ∧ s ≠ dotdot ∧ 47 ∉ s := by
     intro s hm
@@ -359,7 +359,7 @@ private theorem joinPath_clean (base segs : List Bytes) (hb : ∀ s ∈ base, Cl
   simp [this]
 
 /-- the request path of a clean segment list is routed on exactly those segments -/
-private theorem serverRoute_clean (base segs dsegs : List Bytes) (m : Method) (hb : ∀ s ∈ base, Clean s)
+theorem serverRoute_clean (base segs dsegs : List Bytes) (m : Method) (hb : ∀ s ∈ base, Clean s)
     (hd : ∀ s ∈ dsegs, Clean s) (hne : dsegs ≠ [])
     (hdec : unescape (render (base ++ segs)) = some (render (base ++ dsegs))) :
     serverRoute base m (render (base ++ segs)) =
@@ -393,7 +393,7 @@ private theorem serverRoute_clean (base segs dsegs : List Bytes) (m : Method) (h
   rfl
 
 /-- decoding a rendered path segment by segment -/
-private theorem unescape_render (pairs : List (Bytes × Bytes)) (h : ∀ p ∈ pairs, ∀ rest, unescape (p.1 ++ rest) = (unescape rest).map (fun t => p.2 ++ t)) :
+theorem unescape_render (pairs : List (Bytes × Bytes)) (h : ∀ p ∈ pairs, ∀ rest, unescape (p.1 ++ rest) = (unescape rest).map (fun t => p.2 ++ t)) :
     unescape (render (pairs.map (·.1))) = some (render (pairs.map (·.2))) := by
   induction pairs with
   | nil => rfl
@@ -405,7 +405,7 @@ private theorem unescape_render (pairs : List (Bytes × Bytes)) (h : ∀ p ∈ p
     simp
 
 /-- routing of the three path shapes: which handler, which variables -/
-private theorem firstHit_shapes (op : ClientOp) (name id : Bytes) (hn : name ≠ []) (hi : id ≠ []) :
+theorem firstHit_shapes (op : ClientOp) (name id : Bytes) (hn : name ≠ []) (hi : id ≠ []) :
     firstHit op.method (segsOf op.shape name id) routeTable = some (op.handler, op.vars name id) := by
   have hn' : name.isEmpty = false := by cases name <;> simp_all
   have hi' : id.isEmpty = false := by cases id <;> simp_all
@@ -632,7 +632,7 @@ theorem client_round_trip_fails_on_slash :
     clientRoute [] .purge (bA ++ 47 :: b1) [] = some (.hit .deleteV1 [bA, b1]) := by
   decide +kernel
 
-private theorem splitSlash_noslash_segs (p : Bytes) : ∀ seg ∈ splitSlash p, 47 ∉ seg := by
+theorem splitSlash_noslash_segs (p : Bytes) : ∀ seg ∈ splitSlash p, 47 ∉ seg := by
   induction p with
   | nil => simp [splitSlash]
   | cons c rest ih =>
@@ -657,7 +657,7 @@ private theorem splitSlash_noslash_segs (p : Bytes) : ∀ seg ∈ splitSlash p, 
           exact ⟨fun h => hc h.symm, this⟩
         · exact ih seg (by simp [hs])
 
-private theorem stripBase_sub (base segs out : List Bytes) (h : stripBase base segs = some out) : ∀ s ∈ out, s ∈ segs := by
+theorem stripBase_sub (base segs out : List Bytes) (h : stripBase base segs = some out) : ∀ s ∈ out, s ∈ segs := by
   induction base generalizing segs with
   | nil => cases segs <;> simp_all [stripBase]
   | cons b bs ih =>
@@ -669,7 +669,7 @@ private theorem stripBase_sub (base segs out : List Bytes) (h : stripBase base s
       · intro s hs; exact List.mem_cons_of_mem _ (ih xs h s hs)
       · simp at h
 
-private theorem matchTpl_sub (tpl : List TSeg) (segs vs : List Bytes) (h : matchTpl tpl segs = some vs) : ∀ v ∈ vs, v ∈ segs := by
+theorem matchTpl_sub (tpl : List TSeg) (segs vs : List Bytes) (h : matchTpl tpl segs = some vs) : ∀ v ∈ vs, v ∈ segs := by
   induction tpl generalizing segs vs with
   | nil => cases segs <;> simp_all [matchTpl]
   | cons t ts ih =>
@@ -697,7 +697,7 @@ private theorem matchTpl_sub (tpl : List TSeg) (segs vs : List Bytes) (h : match
             · simp
             · exact List.mem_cons_of_mem _ (ih xs ws hm v hv)
 
-private theorem firstHit_sub (m : Method) (segs : List Bytes) (rs : List Route) (h : Handler) (vs : List Bytes)
+theorem firstHit_sub (m : Method) (segs : List Bytes) (rs : List Route) (h : Handler) (vs : List Bytes)
     (hh : firstHit m segs rs = some (h, vs)) : ∀ v ∈ vs, v ∈ segs := by
   induction rs with
   | nil => simp [firstHit] at hh
